@@ -141,7 +141,7 @@ def pool_tree():
                     out.append(('tree', '%s %s %s %s 7' % (x, op, y, op2), []))
     malformed = ['+ 1 2', '1 + * 2 3', '1 + 4()', '-1()', '(4)()', '1+(4)()', 'min(1,2)()', '4(5)', '(1', '1)', '((1)', '1 2', '1 + ', '* 2', '(* 3 4)', '= 5', 'a b c',
                  '1, 2; 3', '1; 2, 3; 4', 'a, b; c, d', ';;', ',,', '(,)', '(;)', '1,;2', '-2^-3', '2^--3', '--2', '!-1', '-!true', 'a = b = 3', 'f g 2', '1 - -1', '-x^-n',
-                 '1 * -2^-3', 'x = 1; x, 2; x + 1', '1,2;3,4;5,6', '(1,2;3)', '1, (2; 3), 4']
+                 '1 * -2^-3', '1, 2^-2', 'a = 2; a^-2', '1; 2^-3, 4', '(1, 2^-2)', '1, -2^2', '1, !true', 'x = 1; x, 2; x + 1', '1,2;3,4;5,6', '(1,2;3)', '1, (2; 3), 4']
     # every arrangement of up to five items from {operand, `,`, `;`} and a few with a parenthesised group
     import itertools
     for n in range(1, 6):
@@ -156,7 +156,7 @@ def pool_tree():
 
 
 def pool_lexer():
-    words = ['"\\\u0122"', '"\\\u015c"', '"\\\u0422"', '"\\a"', '"\\n"', '"\\\u4e22"', '"\u0122\\"', '1\u000b+\u000b2', '1\u000c+\u000c2', '1\r+\r2', '1\u0085+\u00a02', '1\u2028+\u30002', 'a\u000bb', '1\u200b+2', '1', '25', '0x1F', '0xg', '0xe', '0x1e', '0xE5', '0xdeadbeef', '0x1e-3', 'π', 'aé', 'maß', '1.5', '.5', '5.', '1e3', '1E3', '25E-1', '1e-3', '5e-3-2e-3', '1e+3', '1e+', 'e+3', 'true', 'false', 'True', 'abc', 'a_1', '1a', 'ä',
+    words = ['"a\r\nb"', '"\r\n"', '"a\rb"', '0 /* x *', '1 + 2 /**', 'a /* todo **', '1 /*', '"\\', '"a\\', '""', '"\\\\"'] + ['"\\\u0122"', '"\\\u015c"', '"\\\u0422"', '"\\a"', '"\\n"', '"\\\u4e22"', '"\u0122\\"', '1\u000b+\u000b2', '1\u000c+\u000c2', '1\r+\r2', '1\u0085+\u00a02', '1\u2028+\u30002', 'a\u000bb', '1\u200b+2', '1', '25', '0x1F', '0xg', '0xe', '0x1e', '0xE5', '0xdeadbeef', '0x1e-3', 'π', 'aé', 'maß', '1.5', '.5', '5.', '1e3', '1E3', '25E-1', '1e-3', '5e-3-2e-3', '1e+3', '1e+', 'e+3', 'true', 'false', 'True', 'abc', 'a_1', '1a', 'ä',
              '"x"', '"a\\\\b"', '"a\\"b"', '"a\\nb"', '"unterminated', '"/**/"', '9223372036854775807', '9223372036854775808', '0x7fffffffffffffff', '0x8000000000000000',
              '1e400', '0x', '1_000']
     seps = ['', ' ', '\t', '\n', ' ', ' ', '/**/', '/* c */', '// c\n', '/*', '/*/', '/**//**/', ' /**/ ']
